@@ -134,6 +134,24 @@ fn run_one(b: &Value) -> (Option<Value>, Vec<Value>) {
     let mut fed: HashMap<String, usize> = HashMap::new();
     let mut trace = vec![];
     let mut fired_before = false;
+    // INTERACTION between instances: ANOTHER archive of the same process is being written all along - created before the
+    // behaviour's first call, with a file left open across everything the behaviour does (its creations, failures and
+    // closes included), fed and closed after its last call.  The model's state is per handle: nothing the behaviour does
+    // may be felt by the bystander.
+    let mut by_sink = Box::new(SinkCtx { data: vec![], sched: vec![], i: 0, fail_armed: false, fail_with_count: false, fired: false, calls: 0 });
+    let by_ctx: *mut c_void = (&mut *by_sink as *mut SinkCtx).cast();
+    let mut by_cfg: MLAConfigHandle = null_mut();
+    let mut by_ar: MLAArchiveHandle = null_mut();
+    let mut by_fh: MLAArchiveFileHandle = null_mut();
+    let by_name = CString::new("bystander").unwrap();
+    let by_ok = status_ok(&mla_config_default_new(&mut by_cfg))
+        && status_ok(&mla_config_add_public_keys(by_cfg, pub_pem.as_ptr()))
+        && status_ok(&mla_archive_new(&mut by_cfg, Some(write_cb), Some(flush_cb), by_ctx, &mut by_ar))
+        && status_ok(&mla_archive_file_new(by_ar, by_name.as_ptr(), &mut by_fh))
+        && status_ok(&mla_archive_file_append(by_ar, by_fh, b"first".as_ptr(), 5));
+    if !by_ok {
+        return (Some(json!({"kind": "valid-call-refused", "call": ["bystander-setup"], "index": 0, "null": false, "status": 0})), trace);
+    }
     for (i, c) in calls.iter().enumerate() {
         let op = c[0].as_str().unwrap();
         let fname = c.get(1).and_then(Value::as_str).unwrap_or("").to_string();
@@ -193,6 +211,24 @@ fn run_one(b: &Value) -> (Option<Value>, Vec<Value>) {
                 return (Some(json!({"kind": kind, "call": c, "index": i, "null": null_round, "status": trace.last().unwrap()["status"]})), trace);
             }
             if fired_now { fired_before = true; }
+        }
+    }
+    // the bystander archive goes on and ends as if nothing had happened next to it
+    {
+        let s1 = mla_archive_file_append(by_ar, by_fh, b"then".as_ptr(), 4);
+        let s2 = mla_archive_file_close(by_ar, &mut by_fh);
+        let s3 = mla_archive_close(&mut by_ar);
+        if !(status_ok(&s1) && status_ok(&s2) && status_ok(&s3)) {
+            return (Some(json!({"kind": "other-archive-disturbed", "call": ["bystander"], "status": [status_code(s1), status_code(s2), status_code(s3)]})), trace);
+        }
+        let mut rc = mla::config::ArchiveReaderConfig::new();
+        rc.add_private_keys(&[keys[0].0.clone()]);
+        let mut v = vec![];
+        let ok = mla::ArchiveReader::from_config(Cursor::new(by_sink.data.clone()), rc).ok()
+            .and_then(|mut r| r.get_file("bystander".to_string()).ok().flatten().map(|mut f| f.data.read_to_end(&mut v).is_ok()))
+            .unwrap_or(false);
+        if !ok || v != b"firstthen" {
+            return (Some(json!({"kind": "other-archive-disturbed", "call": ["bystander"], "content": String::from_utf8_lossy(&v)})), trace);
         }
     }
     // the archive: complete and equal to the ArchiveMap of the calls unless a callback failed
